@@ -17,6 +17,13 @@ import time
 import typing
 
 
+def _mkscratch():
+    """tempfile.mkdtemp(prefix="verif-"), on tmpfs when TMPDIR is not set (directory-heavy scenarios
+    are ~4x faster there and do not contend on the ext4 journal when sharded over 16 workers)."""
+    base = os.environ.get("TMPDIR") or ("/dev/shm" if os.access("/dev/shm", os.W_OK | os.X_OK) else None)
+    return tempfile.mkdtemp(prefix="verif-", dir=base)
+
+
 # --------------------------------------------------------------------------- accumulator
 def _size(inp):
     text = json.dumps(inp, default=str, sort_keys=True)
@@ -513,7 +520,7 @@ def _parse_cond_file():
     import conductor.errors as errors
 
     a = Acc()
-    scratch = pathlib.Path(tempfile.mkdtemp(prefix="verif-")).resolve()
+    scratch = pathlib.Path(_mkscratch()).resolve()
     try:
         root = scratch / "proj"
         root.mkdir()
@@ -653,7 +660,7 @@ def _group_worker(job):
     import conductor.errors as errors
 
     a = Acc()
-    scratch = pathlib.Path(tempfile.mkdtemp(prefix="verif-")).resolve()
+    scratch = pathlib.Path(_mkscratch()).resolve()
     try:
         root = scratch / "proj"
         (root / "grp").mkdir(parents=True)
